@@ -281,7 +281,7 @@ fn build(nn: usize, vol: &VolCfg, rng: &mut SplitMix64) -> Base {
 }
 
 /// The fault positions to enumerate for an operation with `calls` device calls.
-fn positions(calls: u64, stride: u64, long: u64) -> Vec<u64> {
+pub fn positions(calls: u64, stride: u64, long: u64) -> Vec<u64> {
     if calls <= long {
         return (1..=calls).filter(|k| (k - 1) % stride == 0 || *k == calls).collect();
     }
